@@ -1614,10 +1614,10 @@ func (h *fsmHandler) opensent(ctx context.Context) (bgp.FSMState, *fsmStateReaso
 				fsm.conn.Close()
 				return bgp.BGP_FSM_IDLE, newfsmStateReason(fsmWriteFailed, nil, nil)
 			}
-			// stop to try to connect.
-			if fsm.outgoingConnMgr.state.Load() == bgp.BGP_FSM_CONNECT {
-				fsm.outgoingConnMgr.stop()
-			}
+			// stop to try to connect. An outgoing connection on which our OPEN is
+			// already out must not stay behind either: nobody would read the
+			// neighbour's OPEN on it, let alone resolve the collision (RFC 4271 6.8).
+			fsm.outgoingConnMgr.stopWithNotification(bgp.NewBGPNotificationMessage(bgp.BGP_ERROR_CEASE, bgp.BGP_ERROR_SUB_CONNECTION_COLLISION_RESOLUTION, nil))
 
 			fsm.bgpMessageStateUpdate(bgp.BGP_MSG_KEEPALIVE, false)
 			return bgp.BGP_FSM_OPENCONFIRM, newfsmStateReason(fsmOpenMsgReceived, nil, nil)
